@@ -50,12 +50,22 @@
 #define NE 4000
 #define FULL_MAX 64
 
+/* two hooks per element: `heap` is anchored at `hn`, its swap partner `heap2` at `hn2`
+ * (an element is in at most one heap at a time) */
 struct elem {
     int key;
     struct cstl_heap_node hn;
+    long pad;
+    struct cstl_heap_node hn2;
 };
 
-static struct cstl_heap heap;
+static struct cstl_heap heap_obj[2];
+/* `heap` is the object the operations address, `heap2` its swap partner.  `swap` calls
+ * cstl_heap_swap on the two objects; `alt` only switches which OBJECT the following operations
+ * address (no library call), so that both objects get used after a swap. */
+static struct cstl_heap * HP = &heap_obj[0], * HP2 = &heap_obj[1];
+#define heap (*HP)
+#define heap2 (*HP2)
 static struct elem pool[NE];
 
 static int cmp_elem(const void * a, const void * b, void * p)
@@ -78,7 +88,8 @@ static long id_of_bn(const struct cstl_bintree_node * bn)
         return -1;
     }
     d = (size_t)(p - base);
-    if (d % sizeof(struct elem) != offsetof(struct elem, hn.bn)) {
+    if (d % sizeof(struct elem) != offsetof(struct elem, hn.bn)
+        && d % sizeof(struct elem) != offsetof(struct elem, hn2.bn)) {
         return -1;
     }
     return (long)(d / sizeof(struct elem)) + 1;
@@ -89,7 +100,13 @@ static long id_of_elem(const void * e)
     if (e == NULL) {
         return 0;
     }
-    return id_of_bn(&((const struct elem *)e)->hn.bn);
+    {
+        const char * p = (const char *)e, * base = (const char *)pool;
+        if (p < base || p >= base + sizeof(pool) || (size_t)(p - base) % sizeof(struct elem) != 0) {
+            return -1;
+        }
+        return (long)((size_t)(p - base) / sizeof(struct elem)) + 1;
+    }
 }
 
 static void print_elem(const void * e)
@@ -209,8 +226,12 @@ static void reset(void)
     static const struct cstl_heap twin = CSTL_HEAP_INITIALIZER(struct elem, hn, cmp_elem, H_PRIV(1));
     struct cstl_heap z;
     memset(pool, 0, sizeof(pool));
+    HP = &heap_obj[0];
+    HP2 = &heap_obj[1];
     H_POISON_OBJ(heap);
+    H_POISON_OBJ(heap2);
     cstl_heap_init(&heap, cmp_elem, H_PRIV(1), offsetof(struct elem, hn));
+    cstl_heap_init(&heap2, cmp_elem, H_PRIV(1), offsetof(struct elem, hn2));
     memset(&z, 0, sizeof(z));
     cstl_heap_init(&z, cmp_elem, H_PRIV(1), offsetof(struct elem, hn));
     if (memcmp(&z, &twin, sizeof(z)) != 0) {
@@ -314,7 +335,7 @@ static void bulk(size_t n, long nprio, unsigned long seed)
     if (what != NULL) {
         outf("bad step=%zu %s", step, what);
         /* the big pool goes away: start over with an empty heap */
-        cstl_heap_init(&heap, cmp_elem, H_PRIV(1), offsetof(struct elem, hn));
+        cstl_heap_init(&heap, cmp_elem, H_PRIV(1), heap.bt.off - offsetof(struct cstl_heap_node, bn));
     } else {
         outf("ok ck=%llu", ck);
     }
@@ -393,6 +414,15 @@ static void op(int argc, char ** argv)
             }
         }
         outf(" p=%d", okp);
+    } else if (!strcmp(o, "swap") && argc == 1) {
+        /* exchange the heap with its (initially empty) partner, which is anchored at the other hook */
+        cstl_heap_swap(&heap, &heap2);
+        outf("ok");
+    } else if (!strcmp(o, "alt") && argc == 1) {
+        struct cstl_heap * t = HP;
+        HP = HP2;
+        HP2 = t;
+        outf("ok");
     } else if (!strcmp(o, "dump") && argc == 1) {
         full = 1;
         outf("ok");
